@@ -38,7 +38,7 @@ def compare(mod, r):
         if not (hasattr(mod, "panic_expected") and mod.panic_expected(case, r)):
             return ("panic", "implementation panicked (dev=%s release=%s)" % (r.get("dev_panic"), r.get("rel_panic")))
     if "rel" in r and r["rel"] != r["dev"]:
-        return ("devrel", "debug and release builds answer differently")
+        return ("devrel", "debug and release builds answer differently (release runs the cases in the opposite order: build-dependent arithmetic, or state carried between calls)")
     if r["model"] is None:
         return None
     canon = getattr(mod, "canon", lambda c, a: a)
@@ -174,6 +174,19 @@ def run_property(ck, pid, tier, seed, replay):
                        "impl_release": r.get("rel", "")[:4000], "model": (r["model"] or "(implementation only)")[:4000], "origin": o,
                        "failing_cases_of_this_kind": len(lst),
                        "broken": "correspondence implementation vs Coq model (%s)" % getattr(mod, "CORRESPONDENCE", pid)}
+            if kind == "devrel" or (not replay and len(cases) > 1 and r["case"] in cases):
+                # the answer may depend on what the same process handled before: keep the block of consecutive cases the
+                # case ran in (the release build answers a block in the opposite order) so that the replay reproduces it
+                try:
+                    j = cases.index(r["case"])
+                    lo = (j // 16) * 16
+                    if kind == "devrel":
+                        payload["cases"] = cases[max(0, lo - 16):lo + 32]
+                        payload["note"] = ("debug and release differ; the release build answers the cases in the opposite order, so this is "
+                                           "either build-dependent arithmetic or state carried from one call into the next (a static, a "
+                                           "thread_local cache, a pooled buffer). `cases` holds the neighbourhood the case ran in")
+                except ValueError:
+                    pass
             v.violation(ck, h8(kind + r["case"]), payload, no_input=(kind in ("format", "errdiff", "modeldiff")))
             print("DISAGREEMENT[%s] %s\n  case : %s\n  impl : %s\n  model: %s" % (kind, detail, r["case"][:600], r["dev"][:600], (r["model"] or "")[:600]))
         # ---------------- extraction cross-check: vm_compute inside Coq vs the extracted binary ----------------
